@@ -2649,7 +2649,7 @@ impl Server {
         let count = if parts.len() == 3 {
             match &parts[2] {
                 RespFrame::BulkString(Some(bytes)) => {
-                    match String::from_utf8_lossy(bytes).parse::<usize>() {
+                    match String::from_utf8_lossy(bytes).parse::<i64>().map_err(|_| ()).and_then(|n| usize::try_from(n).map_err(|_| ())) {
                         Ok(n) => n,
                         Err(_) => return Ok(RespFrame::error("ERR value is not an integer or out of range")),
                     }
@@ -2697,7 +2697,7 @@ impl Server {
         let count = if parts.len() == 3 {
             match &parts[2] {
                 RespFrame::BulkString(Some(bytes)) => {
-                    match String::from_utf8_lossy(bytes).parse::<usize>() {
+                    match String::from_utf8_lossy(bytes).parse::<i64>().map_err(|_| ()).and_then(|n| usize::try_from(n).map_err(|_| ())) {
                         Ok(n) => n,
                         Err(_) => return Ok(RespFrame::error("ERR value is not an integer or out of range")),
                     }
@@ -2787,7 +2787,7 @@ impl Server {
                             }
                             if let RespFrame::BulkString(Some(seconds_bytes)) = &parts[i + 1] {
                                 if let Ok(seconds_str) = String::from_utf8(seconds_bytes.as_ref().clone()) {
-                                    if let Ok(seconds) = seconds_str.parse::<u64>() {
+                                    if let Ok(seconds) = seconds_str.parse::<i64>().map_err(|_| ()).and_then(|n| u64::try_from(n).map_err(|_| ())) {
                                         if seconds == 0 {
                                             return Ok(RespFrame::error("ERR invalid expire time in 'set' command"));
                                         }
@@ -2805,7 +2805,7 @@ impl Server {
                             }
                             if let RespFrame::BulkString(Some(millis_bytes)) = &parts[i + 1] {
                                 if let Ok(millis_str) = String::from_utf8(millis_bytes.as_ref().clone()) {
-                                    if let Ok(millis) = millis_str.parse::<u64>() {
+                                    if let Ok(millis) = millis_str.parse::<i64>().map_err(|_| ()).and_then(|n| u64::try_from(n).map_err(|_| ())) {
                                         if millis == 0 {
                                             return Ok(RespFrame::error("ERR invalid expire time in 'set' command"));
                                         }
@@ -3199,7 +3199,7 @@ impl Server {
         
         let seconds = match &parts[2] {
             RespFrame::BulkString(Some(bytes)) => {
-                match String::from_utf8_lossy(bytes).parse::<u64>() {
+                match String::from_utf8_lossy(bytes).parse::<i64>().map_err(|_| ()).and_then(|n| u64::try_from(n).map_err(|_| ())) {
                     Ok(n) => n,
                     Err(_) => return Ok(RespFrame::error("ERR value is not an integer or out of range")),
                 }
@@ -3233,7 +3233,7 @@ impl Server {
         
         let millis = match &parts[2] {
             RespFrame::BulkString(Some(bytes)) => {
-                match String::from_utf8_lossy(bytes).parse::<u64>() {
+                match String::from_utf8_lossy(bytes).parse::<i64>().map_err(|_| ()).and_then(|n| u64::try_from(n).map_err(|_| ())) {
                     Ok(n) => n,
                     Err(_) => return Ok(RespFrame::error("ERR value is not an integer or out of range")),
                 }
